@@ -23,28 +23,36 @@ use mahf::problems::{
 };
 use mahf::state::common::{Evaluations, Iterations};
 use mahf::{Configuration, ExecResult, Problem, Random, SingleObjective, SingleObjectiveProblem, State};
+use better_any::TidAble;
 use rand::{RngCore, SeedableRng};
 use rand_chacha::ChaCha12Rng;
 
 // ------------------------------------------------------------------------------------------------
 // wrapper problem: same problem, objective calls take a pseudo-random 0–200 µs
 
-pub trait HP: HProblem + KnownOptimumProblem {}
-impl<P: HProblem + KnownOptimumProblem> HP for P {}
+pub trait HP: HProblem + KnownOptimumProblem {
+    /// Problem instance `i` of this kind (different instances have different dimensions / domains).
+    fn instance(i: u32) -> Self;
+}
+impl HP for Sphere { fn instance(i: u32) -> Self { sphere_instance(i) } }
+impl HP for OneMax { fn instance(i: u32) -> Self { onemax_instance(i) } }
+impl HP for Tsp { fn instance(i: u32) -> Self { tsp_instance(i) } }
 
 #[derive(Clone)]
 pub struct J<P> {
     inner: P,
     jitter: Option<u64>,
     ctr: Arc<AtomicU64>,
+    label: Option<String>,
 }
 impl<P> J<P> {
-    fn new(inner: P, jitter: Option<u64>) -> Self { J { inner, jitter, ctr: Default::default() } }
+    fn new(inner: P, jitter: Option<u64>) -> Self { J { inner, jitter, ctr: Default::default(), label: None } }
+    fn labelled(inner: P, jitter: Option<u64>, label: String) -> Self { J { inner, jitter, ctr: Default::default(), label: Some(label) } }
 }
 impl<P: HProblem> Problem for J<P> {
     type Encoding = P::Encoding;
     type Objective = SingleObjective;
-    fn name(&self) -> &str { self.inner.name() }
+    fn name(&self) -> &str { self.label.as_deref().unwrap_or(self.inner.name()) }
 }
 impl<P: HProblem> ObjectiveFunction for J<P> {
     fn objective(&self, s: &P::Encoding) -> SingleObjective {
@@ -217,6 +225,35 @@ fn log_setup<Q: SingleObjectiveProblem>(state: &mut State<Q>) -> ExecResult<()> 
     })
 }
 
+/// The seed of the generator found in the state when `setup` runs (observed experiment seed), logged.
+#[derive(Clone, Default, serde::Serialize, better_any::Tid, derive_more::Deref, derive_more::DerefMut)]
+pub struct SeedMark(pub u64);
+impl mahf::CustomState<'_> for SeedMark {}
+#[derive(Clone, serde::Serialize)]
+struct Always;
+impl<P: Problem> mahf::Condition<P> for Always {
+    fn evaluate(&self, _p: &P, _s: &mut State<P>) -> ExecResult<bool> { Ok(true) }
+}
+fn exp_setup<Q: SingleObjectiveProblem + ObjectiveFunction + Sync>(state: &mut State<Q>, par: bool) -> ExecResult<()> {
+    let seed = state.random_mut().config().seed;
+    state.insert(SeedMark(seed));
+    if par { state.insert_evaluator(Parallel::<Q>::new()) } else { state.insert_evaluator(Sequential::<Q>::new()) }
+    log_setup(state)?;
+    state.configure_log(|c| { c.with_auto::<SeedMark>(Box::new(Always)); Ok(()) })
+}
+/// The `SeedMark` value in the first step of an exported (compressed CBOR) log.
+fn seed_in_file(p: &std::path::Path) -> Option<u64> {
+    let bytes = std::fs::read(p).ok()?;
+    let v: ciborium::Value = ciborium::de::from_reader(&bytes[..]).ok()?;
+    let top = v.as_map()?;
+    let get = |key: &str| top.iter().find(|(k, _)| k.as_text() == Some(key)).map(|(_, v)| v);
+    let names = get("names")?.as_array()?;
+    let key = names.iter().position(|n| n.as_text() == Some(std::any::type_name::<SeedMark>()))?;
+    let first = get("entries")?.as_array()?.first()?.as_map()?;
+    let val = first.iter().find(|(k, _)| k.as_integer().and_then(|i| u64::try_from(i).ok()) == Some(key as u64))?.1.clone();
+    val.as_integer().and_then(|i| u64::try_from(i).ok())
+}
+
 /// Counting wrapper around the default generator: same stream as `Random::new(seed)`.
 static USER_DRAWS: AtomicU64 = AtomicU64::new(0);
 struct UserRng(ChaCha12Rng);
@@ -294,6 +331,48 @@ fn all_runs<P: HP>(config: &Configuration<J<P>>, inner: &P, cx: &Ctx) -> Vec<Str
     out
 }
 
+/// The SAME configuration object on two problems with different domains one after the other, and a
+/// clone made AFTER the first use — each compared with a fresh configuration on that problem.
+/// `fresh` builds a new configuration (same template, same parameters).
+fn reuse_runs<P: HP>(used: &Configuration<J<P>>, fresh: &Configuration<J<P>>, ia: u32, ib: u32, seed: u64, pool: &rayon::ThreadPool) -> Vec<String> {
+    let enc = |s: &P::Encoding| P::enc(s);
+    let (pa, pb) = (J::new(P::instance(ia), None), J::new(P::instance(ib), None));
+    let mut out = vec![];
+    // reference: pristine configuration on B
+    out.push(list(["fresh-on-B".into(), run_digest(fresh, &pb, seed, false, Gen::Seeded, &enc)]));
+    // first use on A (result not compared here), then the same object on B
+    let first = run_digest(used, &pa, seed, false, Gen::Seeded, &enc);
+    out.push(list(["used-on-A-then-B".into(), run_digest(used, &pb, seed, false, Gen::Seeded, &enc)]));
+    let cl = used.clone();
+    out.push(list(["clone-after-use-on-B".into(), run_digest(&cl, &pb, seed, false, Gen::Seeded, &enc)]));
+    let jb = J::new(P::instance(ib), Some(seed ^ 0x99));
+    out.push(list(["used-par-on-B".into(), pool.install(|| run_digest(used, &jb, seed, true, Gen::Seeded, &enc))]));
+    // and back on A: must equal the first use
+    let again = run_digest(used, &pa, seed, false, Gen::Seeded, &enc);
+    if again != first { out.push(list(["A-after-B-differs-from-first-A".into(), again])); }
+    out
+}
+struct Reuse<'a> { name: String, v: u32, iters: u32, ia: u32, ib: u32, seed: u64, pool: &'a rayon::ThreadPool }
+impl<'a> JUser for Reuse<'a> {
+    type Out = Vec<String>;
+    fn use_config<P: HP>(self, config: &Configuration<J<P>>, _inner: P) -> Vec<String> where P::Encoding: std::fmt::Debug {
+        // a second, pristine configuration of the same template
+        struct Fresh<'a, 'b, Q: HP> { used: &'b Configuration<J<Q>>, r: &'b Reuse<'a> }
+        impl<'a, 'b, Q: HP> JUser for Fresh<'a, 'b, Q> {
+            type Out = Vec<String>;
+            fn use_config<P2: HP>(self, fresh: &Configuration<J<P2>>, _inner: P2) -> Vec<String> where P2::Encoding: std::fmt::Debug {
+                // P2 and Q are the same type (same template name); go through `Any` to say so
+                let fresh_any: &dyn std::any::Any = fresh;
+                match fresh_any.downcast_ref::<Configuration<J<Q>>>() {
+                    Some(f) => reuse_runs::<Q>(self.used, f, self.r.ia, self.r.ib, self.r.seed, self.r.pool),
+                    None => vec![list(["fresh-on-B".into(), "type-mismatch".into()])],
+                }
+            }
+        }
+        with_jtemplate(&self.name, self.v, self.ia, self.iters, Fresh { used: config, r: &self }).unwrap_or(vec![list(["fresh-on-B".into(), "ctor-err".into()])])
+    }
+}
+
 struct RunAll<'a> { cx: Ctx<'a> }
 impl<'a> JUser for RunAll<'a> {
     type Out = Vec<String>;
@@ -331,12 +410,12 @@ fn same_as_shared(name: &str, v: u32, inst: u32, iters: u32) -> bool {
         _ => false,
     }
 }
-struct SeqOnly { seed: u64, gen: Gen }
+struct SeqOnly { seed: u64, gen: Gen, par: bool }
 impl JUser for SeqOnly {
     type Out = String;
     fn use_config<P: HP>(self, config: &Configuration<J<P>>, inner: P) -> String where P::Encoding: std::fmt::Debug {
         let enc = |s: &P::Encoding| P::enc(s);
-        run_digest(config, &J::new(inner, None), self.seed, false, self.gen, &enc)
+        run_digest(config, &J::new(inner, if self.par { Some(self.seed) } else { None }), self.seed, self.par, self.gen, &enc)
     }
 }
 
@@ -409,50 +488,52 @@ fn cbor_file_canon(p: &std::path::Path) -> String {
 }
 fn tmp_root() -> PathBuf { PathBuf::from("/verif/harness/target/tmp") }
 
-/// Child process: runs the real `par_experiment` inside a pool of `pool` threads, writing under `dir`.
-struct ExpChild { runs: u64, pool: usize, dir: PathBuf }
+/// Child process: runs the real `par_experiment` on `nprob` problems (different instances, labelled
+/// p0, p1, …) inside a pool of `pool` threads, writing under `dir`.
+struct ExpChild { runs: u64, pool: usize, nprob: u32, dir: PathBuf }
 impl JUser for ExpChild {
     type Out = bool;
-    fn use_config<P: HP>(self, config: &Configuration<J<P>>, inner: P) -> bool where P::Encoding: std::fmt::Debug {
-        let problems = [J::new(inner, Some(0x5eed))];
+    fn use_config<P: HP>(self, config: &Configuration<J<P>>, _inner: P) -> bool where P::Encoding: std::fmt::Debug {
+        let problems: Vec<J<P>> = (0..self.nprob).map(|i| J::labelled(P::instance(i), Some(0x5eed + i as u64), format!("p{i}"))).collect();
         let tp = rayon::ThreadPoolBuilder::new().num_threads(self.pool).build().expect("pool");
         let (runs, dir) = (self.runs, self.dir.clone());
         let r = catch(|| tp.install(|| {
-            mahf::experiments::par_experiment(config, |state: &mut State<J<P>>| {
-                state.insert_evaluator(Parallel::<J<P>>::new());
-                log_setup(state)
-            }, &problems, runs, &dir, true)
+            mahf::experiments::par_experiment(config, |state: &mut State<J<P>>| exp_setup(state, true), &problems, runs, &dir, true)
         }));
         matches!(r, Some(Ok(())))
     }
 }
-/// Parent: the single-run reference for seed = run number, exported through the same `to_cbor`.
-struct ExpRef { runs: u64, dir: PathBuf }
+/// Parent: for every (problem, run) the single-run reference seeded with the run number, exported
+/// through the same `to_cbor`; the experiment's files; the seeds observed inside the experiment's jobs.
+struct ExpRef { runs: u64, nprob: u32, dir: PathBuf }
 impl JUser for ExpRef {
-    type Out = (String, String);
-    fn use_config<P: HP>(self, config: &Configuration<J<P>>, inner: P) -> (String, String) where P::Encoding: std::fmt::Debug {
-        let problem = J::new(inner, None);
-        let (mut single, mut files) = (String::new(), String::new());
-        for run in 0..self.runs {
-            let r = catch(|| config.optimize_with(&problem, |state: &mut State<J<P>>| {
-                state.insert(Random::new(run));
-                state.insert_evaluator(Sequential::<J<P>>::new());
-                log_setup(state)
-            }));
-            let one = match r {
-                Some(Ok(state)) => {
-                    let p = self.dir.join(format!("ref_{run}.cbor"));
-                    match state.log().to_cbor(&p) { Ok(()) => cbor_file_canon(&p), Err(_) => "write-err".into() }
-                }
-                Some(Err(_)) => "err".into(),
-                None => "panic".into(),
-            };
-            single.push_str(&one);
-            single.push('\n');
-            files.push_str(&cbor_file_canon(&self.dir.join(format!("{}_{run}.cbor", problem.name()))));
-            files.push('\n');
+    type Out = (String, String, Vec<String>);
+    fn use_config<P: HP>(self, config: &Configuration<J<P>>, _inner: P) -> (String, String, Vec<String>) where P::Encoding: std::fmt::Debug {
+        let (mut single, mut files, mut seeds) = (String::new(), String::new(), vec![]);
+        for pi in 0..self.nprob {
+            let problem = J::labelled(P::instance(pi), None, format!("p{pi}"));
+            for run in 0..self.runs {
+                let r = catch(|| config.optimize_with(&problem, |state: &mut State<J<P>>| {
+                    state.insert(Random::new(run));
+                    exp_setup(state, false)
+                }));
+                let one = match r {
+                    Some(Ok(state)) => {
+                        let p = self.dir.join(format!("ref_{pi}_{run}.cbor"));
+                        match state.log().to_cbor(&p) { Ok(()) => cbor_file_canon(&p), Err(_) => "write-err".into() }
+                    }
+                    Some(Err(_)) => "err".into(),
+                    None => "panic".into(),
+                };
+                single.push_str(&one);
+                single.push('\n');
+                let f = self.dir.join(format!("{}_{run}.cbor", problem.name()));
+                files.push_str(&cbor_file_canon(&f));
+                files.push('\n');
+                seeds.push(list([pi.to_string(), run.to_string(), seed_in_file(&f).map(|s| s.to_string()).unwrap_or("unobserved".into())]));
+            }
         }
-        (fnv(&single), fnv(&files))
+        (fnv(&single), fnv(&files), seeds)
     }
 }
 
@@ -490,25 +571,33 @@ fn run_case(input: &Sx, pools: &[(usize, rayon::ThreadPool)]) -> String {
         "user-rng" => {
             let name = a[0].atom().unwrap();
             let (v, iters, seed) = (n(1) as u32, n(2) as u32, n(3));
-            let s = with_jtemplate(name, v, 0, iters, SeqOnly { seed, gen: Gen::Seeded }).unwrap_or("ctor-err".into());
-            let u = with_jtemplate(name, v, 0, iters, SeqOnly { seed, gen: Gen::User }).unwrap_or("ctor-err".into());
-            tagged("digests", [list(["seeded".into(), s]), list(["user".into(), u])])
+            let s = with_jtemplate(name, v, 0, iters, SeqOnly { seed, gen: Gen::Seeded, par: false }).unwrap_or("ctor-err".into());
+            let u = with_jtemplate(name, v, 0, iters, SeqOnly { seed, gen: Gen::User, par: false }).unwrap_or("ctor-err".into());
+            let up = pools[3].1.install(|| with_jtemplate(name, v, 0, iters, SeqOnly { seed, gen: Gen::User, par: true })).unwrap_or("ctor-err".into());
+            tagged("digests", [list(["seeded".into(), s]), list(["user".into(), u]), list(["user-parallel".into(), up])])
         }
         "exp" => {
             let name = a[0].atom().unwrap();
-            let (v, iters, runs, pool) = (n(1) as u32, n(2) as u32, n(3), n(4));
-            let dir = tmp_root().join(format!("c08-{}-{name}-{v}-{iters}-{runs}-{pool}", std::process::id()));
+            let (v, iters, runs, pool, nprob) = (n(1) as u32, n(2) as u32, n(3), n(4), n(5) as u32);
+            let dir = tmp_root().join(format!("c08-{}-{name}-{v}-{iters}-{runs}-{pool}-{nprob}", std::process::id()));
             let _ = std::fs::remove_dir_all(&dir);
             std::fs::create_dir_all(&dir).expect("tmp dir");
             let st = std::process::Command::new(std::env::current_exe().unwrap())
-                .args(["--exp", name, &v.to_string(), &iters.to_string(), &runs.to_string(), &pool.to_string(), dir.to_str().unwrap()])
+                .args(["--exp", name, &v.to_string(), &iters.to_string(), &runs.to_string(), &pool.to_string(), &nprob.to_string(), dir.to_str().unwrap()])
                 .stdout(std::process::Stdio::null()).stderr(std::process::Stdio::null()).status();
             let child_ok = matches!(st, Ok(s) if s.success());
             let ron_ok = dir.join("configuration.ron").exists();
-            let (single, files) = with_jtemplate(name, v, 0, iters, ExpRef { runs, dir: dir.clone() }).unwrap_or(("ctor-err".into(), "ctor-err".into()));
+            let (single, files, seeds) = with_jtemplate(name, v, 0, iters, ExpRef { runs, nprob, dir: dir.clone() })
+                .unwrap_or(("ctor-err".into(), "ctor-err".into(), vec![]));
             let _ = std::fs::remove_dir_all(&dir);
             let files = if child_ok && ron_ok { files } else { "experiment-failed".into() };
-            tagged("digests", [list(["single-runs".into(), single]), list(["par-experiment".into(), files])])
+            list(["exp".into(), tagged("seeds", seeds), tagged("digests", [list(["single-runs".into(), single]), list(["par-experiment".into(), files])])])
+        }
+        "reuse" => {
+            let name = a[0].atom().unwrap().to_string();
+            let r = Reuse { name: name.clone(), v: n(1) as u32, iters: n(2) as u32, ia: n(3) as u32, ib: n(4) as u32, seed: n(5), pool: &pools[3].1 };
+            let (v, ia, iters) = (r.v, r.ia, r.iters);
+            tagged("digests", with_jtemplate(&name, v, ia, iters, r).unwrap_or(vec![list(["fresh-on-B".into(), "ctor-err".into()])]))
         }
         "children" => {
             let (seed, k) = (n(0), n(1) as usize);
@@ -521,10 +610,11 @@ fn run_case(input: &Sx, pools: &[(usize, rayon::ThreadPool)]) -> String {
             let seeds: Vec<u64> = ca.iter().map(|c| c.config().seed).collect();
             let da: Vec<String> = ca.iter_mut().map(|c| fnv(&format!("{:?}", first_words(c, 64)))).collect();
             let db: Vec<String> = cb.iter_mut().map(|c| fnv(&format!("{:?}", first_words(c, 64)))).collect();
+            let dc: Vec<String> = words.iter().map(|w| fnv(&format!("{:?}", first_words(&mut Random::new(*w), 64)))).collect();
             // after deriving k children both parents are at the same position
             let tail_eq = first_words(&mut pa, 8) == first_words(&mut pb, 8) && first_words(&mut twin, 8) == { let mut t = Random::new(seed); first_words(&mut t, k + 8)[k..].to_vec() };
             let mut da = da; if !tail_eq { da.push("parent-diverged".into()); }
-            list(["children".into(), tagged("words", words.iter().map(|w| w.to_string())), tagged("seeds", seeds.iter().map(|w| w.to_string())), tagged("a", da), tagged("b", db)])
+            list(["children".into(), tagged("words", words.iter().map(|w| w.to_string())), tagged("seeds", seeds.iter().map(|w| w.to_string())), tagged("a", da), tagged("b", db), tagged("c", dc)])
         }
         "pairs" => {
             let (base, cnt) = (n(0), n(1));
@@ -553,16 +643,16 @@ fn run_case(input: &Sx, pools: &[(usize, rayon::ThreadPool)]) -> String {
 fn main() {
     if std::env::var("VERIF_LOUD").is_err() { quiet_panics(); }
     let argv: Vec<String> = std::env::args().collect();
-    if argv.len() >= 8 && argv[1] == "--exp" {
+    if argv.len() >= 9 && argv[1] == "--exp" {
         let p = |i: usize| argv[i].parse::<u64>().unwrap();
-        let ok = with_jtemplate(&argv[2], p(3) as u32, 0, p(4) as u32, ExpChild { runs: p(5), pool: p(6) as usize, dir: PathBuf::from(&argv[7]) }).unwrap_or(false);
+        let ok = with_jtemplate(&argv[2], p(3) as u32, 0, p(4) as u32, ExpChild { runs: p(5), pool: p(6) as usize, nprob: p(7) as u32, dir: PathBuf::from(&argv[8]) }).unwrap_or(false);
         std::process::exit(if ok { 0 } else { 3 });
     }
     if argv.len() >= 3 && argv[1] == "--digest" {
         let sx = Sx::parse(&argv[2]).expect("bad input");
         let (_, a) = sx.head().unwrap();
         let d = with_jtemplate(a[0].atom().unwrap(), a[1].nat().unwrap() as u32, a[2].nat().unwrap() as u32, a[3].nat().unwrap() as u32,
-            SeqOnly { seed: a[4].nat().unwrap(), gen: Gen::Seeded }).unwrap_or("ctor-err".into());
+            SeqOnly { seed: a[4].nat().unwrap(), gen: Gen::Seeded, par: false }).unwrap_or("ctor-err".into());
         println!("{d}");
         return;
     }
@@ -601,6 +691,15 @@ fn main() {
     for _ in 0..(if a.thorough { 600 } else { 40 }) {
         emit(format!("(gen {} {} {} {} {} {} {} {})", r.range(2, 8), r.range(1, 5), r.below(4), r.below(3), r.below(3), r.below(3), r.below(N_INSTANCES as u64), r.below(1 << 20)));
     }
+    // 2b. one configuration object reused on problems with different domains; clone after use
+    for name in TEMPLATES {
+        for rep in 0..(if a.thorough { 6 } else { 2 }) {
+            let ia = r.below(N_INSTANCES as u64);
+            let ib = (ia + 1 + r.below(N_INSTANCES as u64 - 1)) % N_INSTANCES as u64;
+            let _ = rep;
+            emit(format!("(reuse {name} {} {} {ia} {ib} {})", r.below(JV as u64), r.range(1, 5), r.below(1 << 20)));
+        }
+    }
     // 3. user-supplied generator
     for (i, name) in TEMPLATES.iter().enumerate() {
         if a.thorough || i < 100 {
@@ -608,13 +707,14 @@ fn main() {
         }
     }
     // 4. the batch experiment runner: run counts 1–6 × pool sizes
-    let exp_templates = ["real_ga", "binary_ga", "permutation_sa", "real_pso", "ant_system", "real_es", "real_cro", "permutation_ils"];
+    let exp_templates = ["real_ga", "real_rs", "binary_ga", "real_ils", "permutation_sa", "real_pso", "ant_system", "real_es", "real_cro", "permutation_ils"];
     let n_exp = if a.thorough { exp_templates.len() } else { 4 };
     for t in 0..n_exp {
         let name = exp_templates[(t + a.seed as usize) % exp_templates.len()];
         for runs in 1..=6u64 {
             let pool = [1, 2, 4, 8][((runs + t as u64 + a.seed) % 4) as usize];
-            emit(format!("(exp {name} {} {} {runs} {pool})", r.below(JV as u64), r.range(1, 4)));
+            let nprob = 1 + (runs + t as u64 + a.seed) % 3;
+            emit(format!("(exp {name} {} {} {runs} {pool} {nprob})", r.below(JV as u64), r.range(1, 4)));
         }
     }
     // 5. child generators, seed pairs
